@@ -135,11 +135,12 @@ def run(ctx: Ctx) -> None:
     )
     ctx.assumptions = ["children enumerated by plain enumeration; the first computation of each level is observed (terms are cached afterwards)"]
     ctx.bounds = {"classes": len(classes), "sizes": N_QUICK if ctx.quick else N_THOROUGH, "path_length": 2}
-    step = 24
-    ctx.pmap(_worker, [(ctx.tier, lo, min(lo + step, len(classes))) for lo in range(0, len(classes), step)])
     from mc.checks import c09g
 
-    c09g.run_g(ctx, "c10")
+    step = 8
+    tasks = c09g.g_tasks(ctx, "c10")
+    tasks += [(_worker, (ctx.tier, lo, min(lo + step, len(classes)))) for lo in range(0, len(classes), step)]
+    ctx.pmap_tasks(tasks)
 
 
 def replay(acc: Acc, payload: dict) -> None:
